@@ -35,6 +35,7 @@ global:
   scrape_interval: 15s
   scrape_timeout: 10s
   evaluation_interval: 30s
+  query_log_file: /var/log/prometheus/query.log
   external_labels:
     cluster: c1
     region: r1
